@@ -10,7 +10,7 @@ from .c02 import VERSIONED_KEYS, CLASS_VERSION
 
 META = {
     'title': 'Exporting a database and re-importing it preserves the lexicons',
-    'technique': 'exporter <-> model key coverage; version-guard contradiction rule over local containers across calls; provenance of metadata rowids',
+    'technique': 'exporter <-> model key coverage; version-guard contradiction rule over local containers across calls; provenance of metadata rowids; effect summaries (name-free normal form of a function: locals inlined, positional loop variables, cells, comprehension = loop, helpers expanded) of export(), _precheck and _export_synsets',
     'explanation': (
         'Observational identity of databases is not statically decidable. Decided: R1 every key of every non-extension model '
         'class is produced by the exporter function for that element, under a version condition compatible with the one under '
